@@ -109,6 +109,59 @@ func projectOptions(out map[string]any, opts proto.Message, modelled map[protowi
 	}
 }
 
+// projectRangeOptions: ExtensionRangeOptions as members verification (enum name) and rep (the values
+// of the repeated int32 option extension 1010, packed or not, known or unknown); anything else unexpected.
+func projectRangeOptions(out map[string]any, opts proto.Message) {
+	b, err := proto.MarshalOptions{Deterministic: true}.Marshal(opts)
+	if err != nil {
+		out["unexpected:options"] = "marshal: " + err.Error()
+		return
+	}
+	var rep []any
+	var other []string
+	for len(b) > 0 {
+		num, typ, n := protowire.ConsumeTag(b)
+		if n < 0 {
+			out["unexpected:options"] = "bad wire data"
+			return
+		}
+		b = b[n:]
+		vn := protowire.ConsumeFieldValue(num, typ, b)
+		if vn < 0 {
+			out["unexpected:options"] = "bad wire data"
+			return
+		}
+		val := b[:vn]
+		b = b[vn:]
+		switch {
+		case num == 3 && typ == protowire.VarintType:
+			v, _ := protowire.ConsumeVarint(val)
+			out["verification"] = descriptorpb.ExtensionRangeOptions_VerificationState(v).String()
+		case num == 1010 && typ == protowire.VarintType:
+			v, _ := protowire.ConsumeVarint(val)
+			rep = append(rep, float64(v))
+		case num == 1010 && typ == protowire.BytesType:
+			p, _ := protowire.ConsumeBytes(val)
+			for len(p) > 0 {
+				v, k := protowire.ConsumeVarint(p)
+				if k < 0 {
+					break
+				}
+				rep = append(rep, float64(v))
+				p = p[k:]
+			}
+		default:
+			other = append(other, fmt.Sprintf("%d=%x", num, val))
+		}
+	}
+	if rep != nil {
+		out["rep"] = rep
+	}
+	if len(other) > 0 {
+		out["unexpected:options"] = strings.Join(other, " ")
+	}
+}
+
 func unexpectedOptions(out map[string]any, opts proto.Message) {
 	if opts == nil || !opts.ProtoReflect().IsValid() {
 		return
@@ -236,7 +289,7 @@ func projectMsg(m *descriptorpb.DescriptorProto) any {
 			o["end"] = float64(*end)
 		}
 		if opts != nil && opts.ProtoReflect().IsValid() {
-			unexpectedOptions(o, opts)
+			projectRangeOptions(o, opts)
 		}
 		return o
 	}
